@@ -124,6 +124,8 @@ package buffer
 // itself, and the latter only when no older block is pending (tail == 0) and everything shifted from it has been freed
 //@   ensures[F]  sameBytesExcept(0, 0)
 //@   ensures[F,C13] @reuse: forall(i, 0, old(len(z.pool)), old(z.pool[i].active) || ptr(result) != old(ptr(z.pool[i].buf))) ==> fresh(result) || (ptr(result) == ptr(oldBuf) && old(z.tail) == 0 && old(z.pos) >= len(oldBuf))
+// unless the current buffer is reused in place, it becomes the head block of the pool, with exactly the length given
+//@   ensures[F,C13] @retired: ptr(result) != ptr(oldBuf) ==> z.head >= 1 && z.head <= len(z.pool) && sameSlice(z.pool[z.head-1].buf, oldBuf) && z.pool[z.head-1].active
 //@   loop 1 invariant 0 <= i && swap == -1
 
 //@ func StreamLexer.read
@@ -135,6 +137,9 @@ package buffer
 //@   ensures[F,C13] @cursor: slSameCursor(z)
 //@   ensures[F,C13] @byte: ite(old(slAbs(z)) + pos - slAbs(z) < len(z.buf), result == z.buf[old(slAbs(z)) + pos - slAbs(z)], result == 0 && z.err != nil)
 //@   ensures[F,C13] @kept: len(z.buf) - z.start >= old(len(z.buf) - z.start)
+// accounting: a refill that changes buffers retires exactly the shifted bytes buf[:start] (what Free is counted against);
+// the unfinished token is carried over, not retired
+//@   ensures[F,C13] @retire-shifted: old(z.err) == nil && ptr(z.buf) != old(ptr(z.buf)) ==> z.pool.head >= 1 && len(z.pool.pool[z.pool.head-1].buf) == old(z.start) && ptr(z.pool.pool[z.pool.head-1].buf) == old(ptr(z.buf))
 //@   loop 1 invariant d >= 0 && d <= cap(buf) && d >= old(len(z.buf)) - z.start
 //@   loop 1 invariant[F] delivered(z.r) >= d && forall(i, 0, d, buf[i] == stream(z.r, delivered(z.r) - d + i))
 //@   loop 1 invariant[F] delivered(z.r) - d == old(delivered(z.r) - len(z.buf)) + z.start
